@@ -345,15 +345,12 @@ impl_dyn_sized!({name});
             else:
                 lit = name + 'Init(' + ', '.join('Dyn(&v[%d])' % i for i in range(len(fs))) + ')'
             darm = f'            Spec::Default => <{name} as FlatDefault>::default_emplacer().emplace_unchecked(b),\n' if dflt else ''
-            src += f'''unsafe impl<'a> Emplacer<{name}> for Dyn<'a> {{
-    unsafe fn emplace_unchecked(self, b: &mut [u8]) -> Result<&mut {name}, Error> {{
-        match self.0 {{
+            body = f'''        match self.0 {{
             Spec::Seq(v) => {{ assert_eq!(v.len(), {len(fs)}); {lit}.emplace_unchecked(b) }}
 {darm}            _ => panic!("bad spec"),
         }}
-    }}
-}}
 '''
+            src += dyn_impl(name, body)
         self.items.append(src)
 
     def emit_enum(self, name, t):
@@ -432,15 +429,24 @@ impl_dyn_sized!({name});
 '''
         else:
             darm = f'            Spec::Default => <{name} as FlatDefault>::default_emplacer().emplace_unchecked(b),\n' if has_default(t) else ''
-            src += f'''unsafe impl<'a> Emplacer<{name}> for Dyn<'a> {{
-    unsafe fn emplace_unchecked(self, b: &mut [u8]) -> Result<&mut {name}, Error> {{
-        match self.0 {{
+            body = f'''        match self.0 {{
 {spec_arms}{darm}            _ => panic!("bad spec"),
         }}
-    }}
+'''
+            src += dyn_impl(name, body)
+        self.items.append(src)
+
+
+def dyn_impl(name, body):
+    """`Dyn` as an emplacer of an unsized generated type: both entry points go to the same entry point of
+    the library's own emplacer (the checked one is not the trait's default: an emplacer may override it)"""
+    return f'''unsafe impl<'a> Emplacer<{name}> for Dyn<'a> {{
+    unsafe fn emplace_unchecked(self, b: &mut [u8]) -> Result<&mut {name}, Error> {{
+{body}    }}
+    fn emplace(self, b: &mut [u8]) -> Result<&mut {name}, Error> {{
+{body.replace('.emplace_unchecked(b)', '.emplace(b)')}    }}
 }}
 '''
-        self.items.append(src)
 
 
 def emit_rust(shapes):
@@ -588,6 +594,13 @@ def fixed_shapes():
         # enums WITHOUT a unit variant whose smallest variant is not a multiple of the alignment (MIN_SIZE rounding)
         UE('u8', 0, [U8], [U32, U8]), UE('u8', 0, [U8, U8, U8], [U32]), UE('u16', 0, [U8, V(U8, 'u8')], [U32, U16]),
         US(U16, UE('u8', 0, [U8], [U32, U8])), FX(UE('u8', 0, [U8], [U32, U8]), 'u16'),
+        # a zero-sized field in the middle, followed by a more aligned field (the position walk over a field of size 0)
+        S(U8, UNIT, U32), S(U8, A(U16, 0), U32), S(U8, A(U64, 0), U8), E('u8', 0, [], [U8, UNIT, U32], [U16, A(U32, 0), U8]),
+        US(U8, UNIT, V(U32, 'u8')), US(U8, A(U32, 0), FS('u8')), UE('u8', 0, [], [U8, UNIT, U32, V(U8, 'u8')], [U8, S(), U64]),
+        # FlexVecs of zero-sized items (an item needs an offset slot and nothing else) and of items of MIN_SIZE 0
+        FX(UNIT, 'u8'), FX(UNIT, 'u16'), FX(S(), 'u8'), FX(A(U32, 0), 'u8'), US(U8, FX(UNIT, 'u8')),
+        # FlexVecs of FlexVecs (an item that grows and shrinks in place), also as the tail of a struct
+        FX(FX(U32, 'u32'), 'u32'), FX(FX(U8, 'u8'), 'u16'), FX(FX(V(U8, 'u8'), 'u8'), 'u8'), US(U16, FX(FX(U8, 'u8'), 'u8')),
         # the #[default] unit variant declared last and the only smallest one; wide tags
         UE('u8', 2, [U32, V(U8, 'u16')], [U32], []), US(U8, UE('u8', 1, [U16, V(U16, 'u16')], [])),
         UE('u16', 2, [U32, V(U8, 'u16')], [U32], []), UE('u32', 1, [U8, FS('u8')], []), UE('u16', 0, [], [U8, V(U8, 'u8')]),
